@@ -184,24 +184,24 @@ def parse_input_const_value_node(
             ),
         )
         if not nested_object:
+            model_validate_call = generate_call(
+                func=generate_attribute(
+                    value=generate_subscript(
+                        value=generate_call(func=generate_name("globals")),
+                        slice_=generate_constant(field_type),
+                    ),
+                    attr=MODEL_VALIDATE_METHOD,
+                ),
+                args=[dict_],
+            )
+            if nested_list:
+                # item of a list default, the list has its own default_factory
+                return model_validate_call
             return generate_call(
                 func=generate_name(FIELD_CLASS),
                 keywords=[
                     generate_keyword(
-                        value=generate_lambda(
-                            body=generate_call(
-                                func=generate_attribute(
-                                    value=generate_subscript(
-                                        value=generate_call(
-                                            func=generate_name("globals")
-                                        ),
-                                        slice_=generate_constant(field_type),
-                                    ),
-                                    attr=MODEL_VALIDATE_METHOD,
-                                ),
-                                args=[dict_],
-                            )
-                        ),
+                        value=generate_lambda(body=model_validate_call),
                         arg="default_factory",
                     )
                 ],
